@@ -145,8 +145,8 @@ func newFixedKeyArrayIndex(keyLength int8) *fixedKeyArrayIndex {
 	return fkai
 }
 
-func (fkai *fixedKeyArrayIndex) getKeySize() int8 {
-	return int8(fkai.keylen) + 1 + 8
+func (fkai *fixedKeyArrayIndex) getKeySize() int {
+	return int(fkai.keylen) + 1 + 8
 }
 
 //SetOffset - set the offset of the given record
@@ -204,7 +204,7 @@ func (fkai *fixedKeyArrayIndex) Decode(reader io.Reader) error {
 	if err != nil {
 		return err
 	}
-	sz := int(numKeys * int32(fkai.getKeySize()))
+	sz := int(numKeys) * fkai.getKeySize()
 	fkai.buffer = make([]byte, sz)
 	n, err := reader.Read(fkai.buffer)
 	if err != nil {
